@@ -16,6 +16,7 @@ func All() []*vk.Check {
 		C09(),
 		C10(),
 		C11(),
+		C12(),
 		C13(),
 		C14(),
 		C15(),
